@@ -59,13 +59,13 @@ type exStruct struct {
 	T      time.Time
 }
 
-func (e exStruct) Hello() string                  { return "hello " + e.A }
-func (e exStruct) Add(a, b int) int               { return a + b }
-func (e *exStruct) PtrMethod() string             { return "ptr" }
-func (e exStruct) Fails() (string, error)         { return "", errors.New("method failed") }
-func (e exStruct) Var(xs ...string) string        { return strings.Join(xs, "+") }
+func (e exStruct) Hello() string                                       { return "hello " + e.A }
+func (e exStruct) Add(a, b int) int                                    { return a + b }
+func (e *exStruct) PtrMethod() string                                  { return "ptr" }
+func (e exStruct) Fails() (string, error)                              { return "", errors.New("method failed") }
+func (e exStruct) Var(xs ...string) string                             { return strings.Join(xs, "+") }
 func (e exStruct) WithCtx(c *pongo2.ExecutionContext, s string) string { return s + "!" }
-func (e exStruct) Val(v *pongo2.Value) *pongo2.Value { return pongo2.AsValue(v.String() + "?") }
+func (e exStruct) Val(v *pongo2.Value) *pongo2.Value                   { return pongo2.AsValue(v.String() + "?") }
 
 type exEmbedded struct {
 	exStruct
